@@ -98,6 +98,25 @@ def writer_program(rnd, zero=True):
     return "\n".join(L) + "\n"
 
 
+def big_writer_programs(rnd):
+    """single buffered writes far beyond the coalescing buffer (1 MiB and more, powers of two and their neighbours), the kernel taking
+    everything at once, in two halves, or in pieces: the whole of it must reach the transport, no failure reported"""
+    out = []
+    for n in (65536, 1 << 20, (1 << 20) + 1, 3145854, (1 << 22) + 17):
+        for style in ("all", "halves", "pieces"):
+            main = ["winit"]
+            if style == "all":
+                main.append("tx 1 D %d 0 0" % (n + 100))
+            elif style == "halves":
+                main += ["tx 1 D %d 0 0" % (n // 2), "tx 1 A 0 11 0", "tx 1 D %d 0 0" % (n - n // 2 + 100)]
+            else:
+                piece = rnd.choice([65536, 100000, 1 << 19])
+                main += ["tx 1 D %d 0 0" % piece] * (n // piece + 2)
+            main += ["wwrite 10", "wwrite %d" % n, "runk", "wwrite 7"]
+            out.append("\n".join(["prog nb", "main"] + ["  " + m for m in main] + ["  drain", "endmain", "end"]) + "\n")
+    return out
+
+
 def reader_from_tlc(h, jitter, rnd):
     """behaviour of NbReadImpl (buffer 4, sizes in model units) -> program for the real code (buffer 4096): x1024"""
     L = ["prog nb", "main", "  rinit"]
@@ -164,10 +183,11 @@ def main(c):
     for _ in range(c.pick(1200, 25000)):
         progs.append(reader_program(rnd))
         progs.append(writer_program(rnd))
+    progs += big_writer_programs(rnd)
     vlib.conformance(c, exe, progs, SD, "NbTrace", "NbTrace.cfg", "nb", procs=12, shards=12,
                      nontrivial=lambda ex: any(e.get("e") in ("recv", "send") for e in ex))
     c.cov["rule"] = ("programs = wait(k)/peek/consume(j)/cancel chains (k from 1 to 5x the 4096-byte buffer, waits started from callbacks and from outside) "
-                     "and write/reserve/consume sequences (sizes 0..3x4096) crossed with scripted kernel fragmentations, EAGAIN/EINTR, EOF and error positions; "
+                     "and write/reserve/consume sequences (sizes 0..3x4096, and single writes of 64 KiB .. 4 MiB) crossed with scripted kernel fragmentations, EAGAIN/EINTR, EOF and error positions; "
                      "executed by the real netbuf/network/events code; every trace validated by TLC against NbTrace.tla; "
                      "non-trivial = at least one recv/send answered; distinct = SHA-256 of program")
     c.cov["trusted_base"] = ["TLC", "fake kernel + scripted sockets", "gcc ASan/UBSan"]
